@@ -7,8 +7,16 @@ timestamp, randomness, gas limit and Bitcoin txid - exactly the fields the prope
 transaction is submitted by the same sender (whose nonce the engine fills in).  That revm is a function of the
 environment and the state is the parameter's contract; the end-to-end claim (status and output equal, installed
 runtime code equal) is exercised on the real code by the `call-prediction` oracle of suite E.
+
+Tie (since round 6): the recorded environment of *every* simulation that suite E makes without an explicit block -
+`eth_call`, `eth_estimateGas` probes, `brc20_balance`, the `eth_call` made right before each predicted transaction,
+and every call of every round of `eth_callMany` / `eth_estimateGasMany` - is sent to the model, which answers
+`model-reject:sim-env` / `model-reject:simmulti-env` when height, caller nonce or fees differ from what it derives
+from its own node (`DriverE.readStep`).
 -/
 import Brc20.Model.Node
+import Brc20.Model.DriverE
+import Brc20.Proofs.Sim
 
 namespace Brc20
 open Node
@@ -35,5 +43,139 @@ theorem C17.sim_uses_account_nonce (n : Node) (sim : List (String × String)) (h
 /-- Simulations never change the node (they are reads, C10), so the transaction that follows starts from the state
 the simulation saw. -/
 theorem C17.simulation_leaves_state (n : Node) : (n, Class.ok).1 = n := rfl
+
+/-! ### Multi-call simulations (`eth_callMany`, `eth_estimateGasMany`) -/
+
+/-- The nonce bookkeeping of `read_contract_multi` (a `HashMap` seeded with account nonces, bumped per call) hands
+the `i`-th call its caller's account nonce plus the number of earlier calls of the round by the same caller: the nonce
+that call carries when the same list is submitted as transactions in this order, so nonce-derived child addresses
+coincide call by call. -/
+theorem C17.multi_nonces_are_sequential (acct : String → Nat) (callers : List String) :
+    roundNoncesImpl acct [] callers = roundNonces acct [] callers :=
+  roundNoncesImpl_eq acct callers [] [] (noncesInv_empty acct)
+
+/-- position by position: the `i`-th nonce of a round -/
+theorem C17.round_nonce_at (acct : String → Nat) (callers : List String) :
+    ∀ (seen : List String) (i : Nat) (h : i < callers.length),
+      (roundNonces acct seen callers)[i]? = some (acct callers[i] + (seen.count callers[i] + (callers.take i).count callers[i])) := by
+  induction callers with
+  | nil => intro seen i h; simp at h
+  | cons c cs ih =>
+    intro seen i h
+    cases i with
+    | zero => simp [roundNonces]
+    | succ j =>
+      simp only [List.length_cons, Nat.add_lt_add_iff_right] at h
+      simp only [roundNonces, List.getElem?_cons_succ, List.getElem_cons_succ, List.take_succ_cons]
+      rw [ih (c :: seen) j h]
+      simp only [List.count_cons]
+      congr 2
+      omega
+
+/-- **An accepted multi-call read saw, call by call, the environment the transactions will see**: if the model
+accepts the recorded runs of one complete round of `ncalls` calls (none refused by revm), then every call ran at the
+height the next transaction is built at, with zero fees, and with nonce = its caller's account nonce + the number of
+earlier calls of the round by the same caller. -/
+theorem C17.accepted_round_env (n : Node) (ncalls : Nat) (runs : List (List (String × String) × Bool))
+    (hok : ∀ r ∈ runs, r.2 = true) (hlen : runs.length ≤ ncalls)
+    (hacc : n.simMultiOk ncalls runs = true) :
+    ∀ (i : Nat) (h : i < runs.length),
+      field runs[i].1 "number" = toString n.nextHeight ∧
+      field runs[i].1 "basefee" = "0" ∧ field runs[i].1 "gasprice" = "0" ∧ field runs[i].1 "value" = "0" ∧
+      field runs[i].1 "nonce" =
+        toString (n.accountNonce (field runs[i].1 "caller") +
+          ((runs.take i).map (fun r => field r.1 "caller")).count (field runs[i].1 "caller")) := by
+  intro i h
+  unfold simMultiOk at hacc
+  rw [multiCheckAux_round n ncalls runs [] 0 [] (noncesInv_empty _) hok (by omega)] at hacc
+  rw [List.all_eq_true] at hacc
+  have hcl : i < (runs.map (fun r => field r.1 "caller")).length := by simpa using h
+  have hn := C17.round_nonce_at n.accountNonce (runs.map (fun r => field r.1 "caller")) [] i hcl
+  have hmem : (runs[i].1, n.accountNonce (field runs[i].1 "caller") +
+      ((runs.take i).map (fun r => field r.1 "caller")).count (field runs[i].1 "caller")) ∈
+      (runs.map (·.1)).zip (roundNonces n.accountNonce [] (runs.map (fun r => field r.1 "caller"))) := by
+    rw [List.mem_iff_getElem?]
+    refine ⟨i, ?_⟩
+    rw [List.getElem?_zip_eq_some]
+    constructor
+    · simp [h]
+    · rw [hn]; simp [List.map_take]
+  have := hacc _ hmem
+  simp only [simMultiEnvOk, Bool.and_eq_true, beq_iff_eq] at this
+  obtain ⟨⟨⟨⟨⟨h1, h2⟩, h3⟩, h4⟩, h5⟩, _⟩ := this
+  exact ⟨h1, h3, h4, h5, h2⟩
+
+/-- A read whose recorded multi-call runs do not fit is refused by the model (this is what ties the statement above
+to the code: suite E sends the runs of every `eth_callMany` / `eth_estimateGasMany`). -/
+theorem C17.read_ok_means_env_ok (n : Node) (raw : List String) (evs : List Ev) (ncalls : Nat)
+    (h : (DriverE.readStep n raw evs ncalls).2 = .ok) :
+    (∀ fs ∈ simRuns evs, n.simEnvOk fs = true) ∧ n.simMultiOk ncalls (multiRuns evs) = true := by
+  unfold DriverE.readStep at h
+  simp only at h
+  split at h
+  · cases h
+  · split at h
+    · cases h
+    · split at h
+      · cases h
+      · rename_i h1 h2 h3
+        constructor
+        · intro fs hfs
+          cases hc : n.simEnvOk fs with
+          | true => rfl
+          | false => exact absurd (List.any_eq_true.mpr ⟨fs, hfs, by simp [hc]⟩) h2
+        · cases hc : n.simMultiOk ncalls (multiRuns evs) with
+          | true => rfl
+          | false => exact absurd (by simp [hc]) h3
+
+/-! ### The prediction itself, for any EVM
+
+revm is a parameter: a function of the state view and the environment.  "Code that does not read the block timestamp,
+randomness, remaining gas or the current Bitcoin transaction id" is an EVM whose outcome does not depend on those
+four fields.  For every such function, the simulation's outcome is the transaction's outcome. -/
+
+/-- the environment fields the engine fills in -/
+structure Env where
+  number : Nat
+  caller : String
+  target : String
+  data : String
+  nonce : Nat
+  ts : Nat
+  randomness : String
+  gasLimit : Nat
+  txid : String
+  deriving DecidableEq
+
+/-- environment of `eth_call` at a block boundary (`read_contract`): wall-clock timestamp `now`, zero randomness,
+the call gas limit, zero txid -/
+def Node.simEnv (n : Node) (caller target data : String) (now callGas : Nat) : Env :=
+  { number := n.nextHeight, caller, target, data, nonce := n.accountNonce caller, ts := now,
+    randomness := zeroHash, gasLimit := callGas, txid := zeroHash }
+
+/-- environment of the transaction executed next (`add_tx_to_block` on a boundary node) -/
+def Node.txEnv (n : Node) (caller target data : String) (ts : Nat) (hash : String) (allowance : Nat) (txid : String) : Env :=
+  { number := n.nextHeight, caller, target, data, nonce := n.accountNonce caller, ts, randomness := hash,
+    gasLimit := allowance, txid }
+
+/-- an EVM (any function of state view and environment) whose outcome ignores the four excluded fields -/
+def IgnoresExcluded {S O : Type} (evm : S → Env → O) : Prop :=
+  ∀ s e ts r g t, evm s { e with ts := ts, randomness := r, gasLimit := g, txid := t } = evm s e
+
+/-- **eth_call predicts the next transaction, for every EVM that ignores the excluded fields**: same node (C10: the
+simulation did not change it), same sender, target and data. -/
+theorem C17.prediction_for_any_evm {S O : Type} (evm : S → Env → O) (hev : IgnoresExcluded evm) (view : Node → S)
+    (n : Node) (caller target data : String) (now callGas ts allowance : Nat) (hash txid : String) :
+    evm (view n) (n.simEnv caller target data now callGas) =
+      evm (view n) (n.txEnv caller target data ts hash allowance txid) := by
+  have := hev (view n) (n.simEnv caller target data now callGas) ts hash allowance txid
+  rw [← this]
+  rfl
+
+/-- non-vacuity: an EVM that returns (number, nonce, caller) - what NUMBER and the child-address derivation read -
+ignores the excluded fields -/
+example : IgnoresExcluded (fun (_ : Unit) (e : Env) => (e.number, e.nonce, e.caller)) := by
+  intro s e ts r g t; rfl
+
 
 end Brc20
